@@ -181,7 +181,3 @@ def install(eng):
                  "not exists(lambda b: t in deps0(b), Target), Target)"],
         serves=["C03", "C02", "C05", "C15", "C16"])
 
-    from replay import enum_graph
-    for k in ("gwf.core:Graph.from_targets", "gwf.core:check_for_circular_dependencies",
-              "gwf.core:check_for_circular_dependencies.visitor", "gwf.core:Graph.endpoints"):
-        eng.replayers[k] = enum_graph.replay
